@@ -205,7 +205,7 @@ class FlowVP:
                 return ("closure", rv["def"], ops)
             return ("agg", a, ops)
         if k == "discriminant":
-            return ("discr", self.place(fn, rv["place"], bb, pos, stack))
+            return ("discr", self.place(fn, rv["place"], bb, pos, stack), tuple((v, n) for v, n in rv.get("variants", [])))
         return ("other", k)
 
     def call_args(self, fn, bb):
@@ -279,6 +279,8 @@ def canon(t, closure_body=None, depth=0):
         return "some(%s)" % c(t[1])
     if k == "discr":
         return "discr(%s)" % c(t[1])
+    if k == "call" and t[1] == "std::ops::Try::branch" and len(t[2]) == 1:
+        return c(t[2][0])   # `x?` tests x
     if k == "call":
         name = t[1]
         short = name.split("::")[-1]
